@@ -3,7 +3,7 @@ import re
 import vlib, gen_facts
 from props import codec_common as cc
 
-THEOREMS = ['C03_no_hang', 'C03_token_in_buffer', 'C03_encode_in_buffer']
+THEOREMS = ['C03_no_hang', 'C03_section_total', 'C03_group_total', 'C03_token_in_buffer', 'C03_fixed_token_in_buffer', 'C03_decode_buffers', 'C03_header_buffers', 'C03_data_buffers', 'C03_accepted_longer_than_trailer', 'C03_encode_ladder_is_digit_count', 'C03_encode_preamble_meets_payload', 'C03_encode_lowest_index', 'C03_encode_lowest_index_ok', 'C03_encode_highest_index', 'C03_encode_writes_in_range', 'C03_encode_safe', 'C03_encode_in_buffer', 'C03_encode_range_is_message', 'C03_finding_encode_buffer_overflow']
 MAXPAYLOAD = 8192 - 8
 
 
@@ -58,7 +58,7 @@ def make_oracle(sc, meta, stats):
 
 def run(res, replay=None):
     rng = vlib.rng_for('C03', res.seed)
-    errs = gen_facts.generate(['consts'])
+    errs = gen_facts.generate(['consts', 'encode_ladder'])
     sc = cc.schema()
     if replay:
         lines = [l.strip() for l in open(replay) if l.strip() and not l.startswith('#')]
